@@ -136,6 +136,7 @@ func odRecord(args []string) error {
 				// generation) one quiet move of the position
 				pvs := []int{0}
 				seen := map[int]bool{}
+				seenOut := map[int]bool{}
 				rot := (nodeNo + int(*seed)) % len(o.Pseudo)
 				var quietPv int
 				for j := range o.Pseudo {
@@ -145,13 +146,14 @@ func odRecord(args []string) error {
 						seen[c] = true
 						pvs = append(pvs, pr.M)
 					}
-					if !md.cl[c] && quietPv == 0 && md.name == "nonquiet" {
-						quietPv = pr.M
+					// ... and one move of every class OUTSIDE the mode's own set (a PV move the mode must not deliver: a
+					// quiet under-promotion while only non-quiet moves are asked for, a capture in quiet mode, ...)
+					if !md.cl[c] && !seenOut[c] {
+						seenOut[c] = true
+						pvs = append(pvs, pr.M)
 					}
 				}
-				if quietPv != 0 {
-					pvs = append(pvs, quietPv)
-				}
+				_ = quietPv
 				type variant struct {
 					pv      int
 					evasion bool
